@@ -34,6 +34,11 @@ def fresh_dicts():
     return {1: dict(CYC[1]), 2: {'amp_threshes': (1, 2), 'fs': FS, 'f_range': FR}, 3: dict(AMP[1]), 4: {'filter_kwargs': {'n_cycles': 4}, 'boundary': 2}}
 
 
+def _norm(d):
+    """threshold names modulo the documented shorthand expansion ('monotonicity' == 'monotonicity_threshold')"""
+    return {(k if k.endswith('_threshold') or k == 'min_n_cycles' else k + '_threshold'): v for k, v in d.items()}
+
+
 def snap_heap(D):
     out = []
     for r in (1, 2, 3, 4):
@@ -48,7 +53,7 @@ def snap_heap(D):
             junk = 0 if set(d) <= expected and d.get('amp_threshes') == (1, 2) and d.get('fs') == FS and tuple(d.get('f_range', ())) == FR else 1
         else:
             fam = CYC if r == 1 else AMP
-            body = {k: v for k, v in d.items() if k != 'min_n_cycles'}
+            body = {k: v for k, v in _norm(d).items() if k != 'min_n_cycles'}
             lvl = 1 if body == fam[1] else 2 if body == fam[2] else 9
             junk = 0
         out.append({'mnc': int(mnc) if isinstance(mnc, (int, np.integer)) else 99, 'lvl': lvl if not junk else 9})
@@ -59,8 +64,12 @@ def arg_fp(sig, dicts, table):
     return [tt.col_fp(np.asarray(sig).ravel()), [sorted((k, str(v)) for k, v in d.items()) for d in dicts], pt.table_fp(table) if table is not None else 0]
 
 
-def replay(behaviour):
-    """behaviour: list of action records from TLC. Returns the list of events for Trace_Session."""
+def replay(behaviour, shorthand=None):
+    """behaviour: list of action records from TLC. Returns the list of events for Trace_Session.
+    shorthand: the user writes threshold names without the '_threshold' suffix (the constructor expands them in place, as documented);
+    chosen from the behaviour itself when None."""
+    if shorthand is None:
+        shorthand = (len(behaviour) + sum(a['s'] for a in behaviour)) % 3 == 0 and any(a['a'] == 'New' for a in behaviour)
     import matplotlib
     matplotlib.use('Agg')
     import matplotlib.pyplot as plt
@@ -73,7 +82,19 @@ def replay(behaviour):
     import pandas as pd
     SIG = signals()
     D = fresh_dicts()                    # the user's dictionaries (identity persists through the session)
-    intent = copy.deepcopy(D)            # bookkeeping of what the user wrote (only Edit events touch it)
+    if shorthand:
+        for r in (1, 3):
+            D[r] = {k.replace('_threshold', ''): v for k, v in D[r].items()}
+    intent = {r: (_norm(d) if r in (1, 3) else copy.deepcopy(d)) for r, d in D.items()}   # what the user wrote, in full names (only Edit events touch it)
+    not_expanded = False
+    if shorthand:
+        # the user first builds objects from the shorthand dictionaries: the constructor expands the names IN PLACE (documented); from then
+        # on the same dictionaries are valid arguments of the functional API as well
+        with warnings.catch_warnings():
+            warnings.simplefilter('ignore')
+            Bycycle(burst_method='cycles', thresholds=D[1])
+            Bycycle(burst_method='amp', thresholds=D[3], burst_kwargs=D[2])
+        not_expanded = any(not k.endswith('_threshold') and k != 'min_n_cycles' for r in (1, 3) for k in D[r])
     objs = {}
     with warnings.catch_warnings():
         warnings.simplefilter('ignore')
@@ -97,6 +118,9 @@ def replay(behaviour):
             warnings.simplefilter('ignore')
             try:
                 if a['a'] == 'New':
+                    if not_expanded:
+                        not_expanded = False
+                        raise RuntimeError('shorthand threshold names were not expanded by the constructor')
                     objs[a['o']] = Bycycle(center_extrema='peak', burst_method=a['method'], burst_kwargs=D[2], thresholds=D[a['tk']], find_extrema_kwargs=D[4])
                 elif a['a'] == 'Fit':
                     b = objs[a['o']]
@@ -128,7 +152,9 @@ def replay(behaviour):
                             else:
                                 d['min_n_cycles'] = val
                         else:
-                            d.update(copy.deepcopy((CYC if r == 1 else AMP)[val]))
+                            short = any(not k.endswith('_threshold') and k != 'min_n_cycles' for k in d) and d is not intent[r]
+                            new = copy.deepcopy((CYC if r == 1 else AMP)[val])
+                            d.update({k.replace('_threshold', ''): v for k, v in new.items()} if short else new)
                 elif a['a'] == 'GetAttr':
                     b = objs[a['o']]
                     try:
